@@ -383,6 +383,14 @@ pub fn check_point_seq(c: &PointSeq) -> CaseResult {
                 let d = f.distance(&mixed[j], &mz[j]);
                 ensure!(d.to_bits() == md[j].to_bits(), "kalman-vec-independent", "step {}: entry {} of a slice of states with different histories has distance {} but the point filter gives {} for that state", k, j, md[j], d);
             }
+            // ... and predicted / updated from its own state alone
+            let mp = vf.predict(&mixed);
+            let mu = vf.update(&mixed, &mz);
+            ensure!(mp.len() == mixed.len() && mu.len() == mixed.len(), "kalman-vec-independent", "predict / update of {} states return {} / {} states", mixed.len(), mp.len(), mu.len());
+            for j in 0..mixed.len() {
+                ensure!(same(&mp[j], &f.predict(&mixed[j])), "kalman-vec-independent", "step {}: entry {} of a slice of states with different histories is not predicted as the point filter predicts that state alone", k, j);
+                ensure!(same(&mu[j], &f.update(&mixed[j], &mz[j])), "kalman-vec-independent", "step {}: entry {} of a slice of states with different histories is not updated as the point filter updates that state alone", k, j);
+            }
         }
         for i in 0..ss.len() {
             ensure!(same(&vs[i], &ss[i]), "kalman-vec-independent", "vector filter state {} differs from the single-point filter at step {}", i, k);
